@@ -361,3 +361,31 @@ Proof.
   - intros cts Hc. eapply model_complete_sameorder; eauto.
 Qed.
 Print Assumptions C14_label_independent_partial.
+
+(* ORDER INDEPENDENCE - the half of completeness that is still missing, stated
+   for the repaired _traces (fix fef10715), NOT proved (it did not close in the
+   time; no partial proof is claimed).
+   [leafset_order_statement]: the canonical triples the model computes do not
+   depend on the ORDER in which the triples of the graph are listed (Python: the
+   order in which the store / the sets of nodes are iterated).  Together with
+   C14_label_independent_partial this is exactly C14_complete_statement for the
+   model: g1 iso g2 gives a relabelling f with rename_g f g1 a permutation of g2.
+   The argument it needs, as three lemmas about Iso/Canon.v:
+   (O1) m_refine: for Permutation-related triple lists and initial colourings
+        that are equal as sets of (node set, hash), the results are equal as sets
+        of (node set, hash) - the work list computes the coarsest stable
+        partition whatever the order, and hashes are sums;
+   (O2) m_traces: the SET of certificates of the leaves it explores is the same
+        for such inputs - a candidate is skipped only when a VERIFIED automorphism
+        maps it to a visited one (m_is_automorphism), score pruning uses
+        order-free scores, ties are all kept;
+   (O3) pick_leaf returns a leaf of minimal certificate, and two leaves with the
+        same certificate give the same canonical triples as a multiset. *)
+Definition C14_leafset_order_statement
+  (hashfunc : str -> N) (n3 : term -> str) (hexs : N -> str) (decs : nat -> str) (tstr : ctriple -> str) : Prop :=
+  forall g g' fuel cts,
+    Permutation.Permutation g g' ->
+    m_canonical_triples hashfunc n3 hexs decs tstr g fuel = Some cts ->
+    exists fuel' cts',
+      m_canonical_triples hashfunc n3 hexs decs tstr g' fuel' = Some cts'
+      /\ Permutation.Permutation cts cts'.
